@@ -37,6 +37,7 @@ import (
 	"os/exec"
 	"path/filepath"
 	"reflect"
+	"runtime/debug"
 	"sort"
 	"strings"
 	"sync"
@@ -392,6 +393,7 @@ type frameCfg struct {
 	DupPct   int
 	Seed     uint64
 	MaxBytes int
+	C05      int  // 1..3: a C05 cell (dialled session / listener, known address / listener, unknown addresses) instead of a traffic scenario
 	Script   int  // 1: big write, wait for its ack, lower the MTU, small writes (a FEC group straddling the change)
 	MtuOps   bool // UDPSession.SetMtu with arbitrary values at random points of the traffic, both sides
 	Flood    bool // a burst of several thousand SendOOB calls in a tight loop in the middle of the transfer
@@ -892,6 +894,9 @@ func (s *frameSide) reader(want int, deadline time.Time, delay time.Duration, do
 // ---------------------------------------------------------------- one scenario on real sessions
 
 func frameRunScenario(cfg frameCfg) *frameResult {
+	if cfg.C05 != 0 {
+		return frameRunC05(cfg)
+	}
 	res := &frameResult{Cfg: cfg, Dist: map[string]int{}, Monitors: map[string]int{}}
 	var resMu sync.Mutex
 	rng := newRng(cfg.Seed)
@@ -1967,4 +1972,688 @@ func TestVerifC19(t *testing.T) {
 		"oob-corrupted": true, "oob-misrouted": true, "oob-disturbs-stream": true, "oob-disturbs-fec": true,
 		"oob-limit": true, "stream-stalled": true, "stream-corrupted": true,
 	})
+}
+
+// ================================================================ C05, session part
+//
+// AUTHENTIC-but-malformed content behind the integrity gate: post-decryption payloads are
+// built by the harness, framed VALIDLY for the session's cipher (nonce + CRC32 + Encrypt, or
+// AEAD seal) and fed synchronously, under recover(), through the real UDPSession.packetInput /
+// Listener.packetInput, interleaved with a genuine peer's traffic.
+
+type frameC05 struct {
+	cfg     frameCfg
+	res     *frameResult
+	rng     *vrng
+	ciph    frameCipher
+	key     []byte
+	framer  BlockCrypt
+	hub     *frameHub
+	path    string
+	conv    uint32
+	d, p    int // the (initial) shape of the target's decoder: FEC off => the lazy 1+1
+	group   uint64
+	target  *UDPSession // path 1
+	lis     *Listener   // paths 2, 3
+	peer    *UDPSession
+	oobMu   sync.Mutex
+	oobGot  [][]byte
+	lines   []string
+	capPos  int
+	feeds   int
+}
+
+func (x *frameC05) frame(rest []byte) []byte {
+	switch x.ciph.class {
+	case frameClassNil:
+		return append([]byte(nil), rest...)
+	case frameClassCRC:
+		buf := make([]byte, cryptHeaderSize+len(rest))
+		copy(buf, x.rng.bytes(nonceSize))
+		binary.LittleEndian.PutUint32(buf[nonceSize:], crc32.ChecksumIEEE(rest))
+		copy(buf[cryptHeaderSize:], rest)
+		x.framer.Encrypt(buf, buf)
+		return buf
+	default:
+		a := x.framer.(*aeadCrypt)
+		nonce := x.rng.bytes(a.NonceSize())
+		return append(append([]byte(nil), nonce...), a.aead.Seal(nil, nonce, rest, nil)...)
+	}
+}
+
+// strip the cipher layer of a genuine datagram (for the log only)
+func (x *frameC05) rest(dgram []byte) []byte {
+	pl, ok := x.ciph.plain(x.key, dgram)
+	if !ok {
+		return nil
+	}
+	switch x.ciph.class {
+	case frameClassCRC:
+		if len(pl) < cryptHeaderSize {
+			return nil
+		}
+		return pl[cryptHeaderSize:]
+	case frameClassAEAD:
+		return pl[x.ciph.ns:]
+	}
+	return pl
+}
+
+func (x *frameC05) sessionAt(addr string) *UDPSession {
+	if x.lis == nil {
+		return x.target
+	}
+	x.lis.sessionLock.RLock()
+	defer x.lis.sessionLock.RUnlock()
+	return x.lis.sessions[addr]
+}
+
+type frameC05Snap struct {
+	inPkts, inErrs, csum, kcpErr, oobPkts, recovered uint64
+	sess                                             *UDPSession
+	hasDec                                           bool
+	tail, count                                      int
+	oobN                                             int
+	nsess                                            int
+}
+
+func (x *frameC05) snap(addr string) frameC05Snap {
+	s := DefaultSnmp.Copy()
+	sn := frameC05Snap{inPkts: s.InPkts, inErrs: s.InErrs, csum: s.InCsumErrors, kcpErr: s.KCPInErrors, oobPkts: s.OOBPackets, recovered: s.FECRecovered}
+	sn.sess = x.sessionAt(addr)
+	if sn.sess != nil {
+		sn.sess.mu.Lock()
+		if dec := sn.sess.fecDecoder; dec != nil {
+			sn.hasDec, sn.tail, sn.count = true, dec.autoTune.tail, dec.autoTune.count
+		}
+		sn.sess.mu.Unlock()
+	}
+	x.oobMu.Lock()
+	sn.oobN = len(x.oobGot)
+	x.oobMu.Unlock()
+	if x.lis != nil {
+		x.lis.sessionLock.RLock()
+		sn.nsess = len(x.lis.sessions)
+		x.lis.sessionLock.RUnlock()
+	}
+	return sn
+}
+
+// feed one framed datagram through the real receive path, synchronously, under recover()
+func (x *frameC05) feed(dgram, rest []byte, addr, note string) {
+	x.feeds++
+	fecOn := x.cfg.D > 0 && x.cfg.P > 0
+	before := x.snap(addr)
+	buf := append([]byte(nil), dgram...) // packetInput decrypts in place
+	var stack string
+	pn := func() (p string) {
+		defer func() {
+			if r := recover(); r != nil {
+				p = fmt.Sprint(r)
+				stack = string(debug.Stack())
+			}
+		}()
+		if x.lis != nil {
+			x.lis.packetInput(buf, frameAddr(addr))
+		} else {
+			x.target.packetInput(buf)
+		}
+		return ""
+	}()
+	x.res.Monitors["session-input-no-panic"]++
+	if pn != "" {
+		if len(stack) > 2500 {
+			stack = stack[:2500]
+		}
+		x.res.violate("session-input-panic:"+x.path, fmt.Sprintf("%s receive path panicked on an authentic %d-byte datagram (%s; cipher %s, FEC %d/%d): %s", x.path, len(dgram), note, x.ciph.name, x.cfg.D, x.cfg.P, pn),
+			map[string]any{"payload_after_decryption": hx(rest), "datagram": hx(dgram), "from": addr, "note": note, "stack": stack})
+		x.lines = append(x.lines, fmt.Sprintf("I from=%s %s -> cls=panic", addr, hx(rest)))
+		return
+	}
+	after := x.snap(addr)
+	created := after.sess != nil && after.sess != before.sess
+	// what the real code did, from its own counters
+	decBefore, tailBefore, countBefore := before.hasDec, before.tail, before.count
+	if created {
+		decBefore, tailBefore, countBefore = fecOn, 0, 0
+	}
+	cls := "raw"
+	switch {
+	case after.csum != before.csum:
+		cls = "gate-reject"
+	case after.inPkts == before.inPkts:
+		cls = "none"
+	case after.inErrs != before.inErrs:
+		cls = "fecshort"
+	case after.oobPkts != before.oobPkts:
+		cls = "oob"
+	case after.hasDec && (!decBefore || after.tail != tailBefore || after.count != countBefore):
+		cls = "fec"
+	}
+	oob := "none"
+	if after.oobN > before.oobN {
+		x.oobMu.Lock()
+		oob = hx(x.oobGot[len(x.oobGot)-1])
+		x.oobMu.Unlock()
+	}
+	x.res.Dist["c05-class-"+cls]++
+	if after.recovered > before.recovered {
+		x.res.Dist["c05-recovered-shards"] += int(after.recovered - before.recovered)
+		x.res.Dist["c05-recovery-"+note]++
+	}
+	x.lines = append(x.lines, fmt.Sprintf("I from=%s %s -> cls=%s newdec=%d created=%d oob=%s", addr, hx(rest), cls, frameB2I(after.hasDec && !decBefore), frameB2I(created), oob))
+	// a session must not come into being for content that carries no readable conversation id
+	if x.lis != nil && created {
+		x.res.Monitors["listener-session-creation"]++
+		flag := uint16(0)
+		if len(rest) >= 6 {
+			flag = binary.LittleEndian.Uint16(rest[4:])
+		}
+		readable := true
+		switch {
+		case len(rest) < 12:
+			readable = false
+		case flag == typeParity:
+			readable = false
+		case flag == typeData:
+			readable = len(rest) >= fecHeaderSizePlus2+IKCP_OVERHEAD
+		case flag == typeOOB:
+		default:
+			readable = len(rest) >= IKCP_OVERHEAD
+		}
+		if !readable {
+			x.res.violate("listener-session-from-unreadable", fmt.Sprintf("the listener created a session for a %d-byte payload with no readable conversation id (%s)", len(rest), note), map[string]any{"payload_after_decryption": hx(rest), "from": addr})
+		}
+		// keep the accept backlog empty; sessions of throw-away addresses are closed again
+		select {
+		case s := <-x.lis.chAccepts:
+			if addr != "B" {
+				s.Close()
+			}
+		default:
+		}
+	}
+	// buffering bounds on the session that took the datagram
+	if s := after.sess; s != nil {
+		s.mu.Lock()
+		rq, rb, wnd := s.kcp.rcv_queue.Len(), s.kcp.rcv_buf.Len(), int(s.kcp.rcv_wnd)
+		groups := 0
+		if s.fecDecoder != nil {
+			groups = len(s.fecDecoder.shardSet)
+		}
+		s.mu.Unlock()
+		x.res.Monitors["session-rcv-bound"]++
+		if rq > wnd || rb > wnd {
+			x.res.violate("session-rcv-bound", fmt.Sprintf("after an authentic %d-byte datagram (%s): rcv_queue %d, rcv_buf %d, rcv_wnd %d", len(dgram), note, rq, rb, wnd), map[string]any{"payload_after_decryption": hx(rest)})
+		}
+		x.res.Monitors["session-decoder-groups"]++
+		if groups > maxShardSets+1 {
+			x.res.violate("session-decoder-groups", fmt.Sprintf("the FEC decoder holds %d groups after an authentic %d-byte datagram (%s)", groups, len(dgram), note), map[string]any{"payload_after_decryption": hx(rest)})
+		}
+	}
+}
+
+func (x *frameC05) forged(rest []byte, addr, note string) {
+	if len(rest) > mtuLimit-cryptHeaderSize-16 {
+		rest = rest[:mtuLimit-cryptHeaderSize-16]
+	}
+	x.res.Dist["c05-forged-"+strings.SplitN(note, ":", 2)[0]]++
+	x.feed(x.frame(rest), rest, addr, note)
+}
+
+// genuine traffic: the peer's datagrams go through the same receive path, the target's go back
+func (x *frameC05) pump() {
+	for round := 0; round < 4; round++ {
+		x.hub.mu.Lock()
+		caps := x.hub.caps[x.capPos:]
+		x.capPos = len(x.hub.caps)
+		x.hub.mu.Unlock()
+		if len(caps) == 0 {
+			return
+		}
+		for _, c := range caps {
+			if c.from == "Bep" {
+				x.res.Dist["c05-genuine"]++
+				x.feed(c.data, x.rest(c.data), "B", "genuine")
+			} else if c.to == "B" || c.to == "Bx" { // the target's answers
+				buf := append([]byte(nil), c.data...)
+				if pn := frameSafe(func() { x.peer.packetInput(buf) }); pn != "" {
+					x.res.violate("session-input-panic:dialled", "the genuine peer's receive path panicked on the target's own datagram: "+pn, hx(c.data))
+				}
+			}
+		}
+	}
+}
+
+func frameSegBytes(conv uint32, cmd, frg uint8, wnd uint16, ts, sn, una, length uint32, data []byte) []byte {
+	b := make([]byte, 24+len(data))
+	binary.LittleEndian.PutUint32(b, conv)
+	b[4], b[5] = cmd, frg
+	binary.LittleEndian.PutUint16(b[6:], wnd)
+	binary.LittleEndian.PutUint32(b[8:], ts)
+	binary.LittleEndian.PutUint32(b[12:], sn)
+	binary.LittleEndian.PutUint32(b[16:], una)
+	binary.LittleEndian.PutUint32(b[20:], length)
+	copy(b[24:], data)
+	return b
+}
+
+// a KCP segment, well-formed or garbled in one respect
+func (x *frameC05) segment(noReset bool) []byte {
+	rng := x.rng
+	n := rng.pick(0, 1, 5, 40, 200)
+	data := rng.bytes(n)
+	conv := x.conv
+	if rng.chance(15) {
+		conv = uint32(rng.u64())
+	}
+	sn := uint32(rng.pick(1, 2, 3, 40, 255, 256, 100000, 1<<31-1)) + uint32(rng.intn(3))
+	if !noReset && rng.chance(10) {
+		sn = 0
+	}
+	if conv != x.conv && noReset && sn == 0 {
+		sn = 1
+	}
+	length := uint32(n)
+	switch rng.intn(8) {
+	case 0:
+		length = uint32(n) + 1
+	case 1:
+		if n > 0 {
+			length = uint32(n) - 1
+		}
+	case 2:
+		length = uint32(rng.pick(1501, 65535, 1<<31, 1<<32-1))
+	case 3:
+		length = 0
+	}
+	cmd := uint8(rng.pick(81, 81, 81, 82, 83, 84, 80, 85, 0, 255))
+	seg := frameSegBytes(conv, cmd, uint8(rng.intn(256)), uint16(rng.intn(65536)), uint32(rng.u64()), sn, uint32(rng.pick(0, 1, 5, 1<<31, 1<<32-1)), length, data)
+	if rng.chance(20) { // truncated
+		seg = seg[:rng.intn(len(seg)+1)]
+	}
+	return seg
+}
+
+func frameFecHdr(seqid uint32, typ uint16) []byte {
+	b := make([]byte, 6)
+	binary.LittleEndian.PutUint32(b, seqid)
+	binary.LittleEndian.PutUint16(b[4:], typ)
+	return b
+}
+
+// a group built so that RECOVERY runs and reconstructs a chosen shard (size field included)
+func (x *frameC05) recoveryGroup(addr string) {
+	rng := x.rng
+	d, p := x.d, x.p
+	ss := uint64(d + p)
+	paws := 0xffffffff / ss * ss
+	x.group++
+	base := (x.group * ss) % paws
+	if rng.chance(10) { // near the id wrap
+		base = paws - ss*uint64(1+rng.intn(3))
+	}
+	codec, err := reedsolomon.New(d, p)
+	if err != nil {
+		return
+	}
+	L := rng.pick(2, 3, 4, 8, 26, 30, 60, 300, 1000)
+	missing := 1 + rng.intn(p)
+	if missing > d {
+		missing = d
+	}
+	miss := map[int]bool{}
+	for len(miss) < missing {
+		miss[rng.intn(d)] = true
+	}
+	sizeChoice := ""
+	shards := make([][]byte, d+p)
+	for i := 0; i < d; i++ {
+		img := rng.bytes(L)
+		if miss[i] {
+			var sz int
+			switch rng.intn(9) {
+			case 0:
+				sz = 0
+			case 1:
+				sz = 1
+			case 2:
+				sz = 2
+			case 3:
+				sz = 3
+			case 4:
+				sz = L - 1
+			case 5:
+				sz = L
+			case 6:
+				sz = L + 1
+			case 7:
+				sz = 0xffff
+			default: // a plausible shard: a valid segment of this conversation
+				seg := x.segment(true)
+				if len(seg)+2 <= L {
+					copy(img[2:], seg)
+					sz = len(seg) + 2
+				} else {
+					sz = L
+				}
+			}
+			binary.LittleEndian.PutUint16(img, uint16(sz))
+			sizeChoice = fmt.Sprintf("%s%d,", sizeChoice, sz)
+			if sz < 2 {
+				x.res.Dist["c05-recovery-target-size-lt2"]++
+			}
+		}
+		shards[i] = img
+	}
+	for j := 0; j < p; j++ {
+		shards[d+j] = make([]byte, L)
+	}
+	if codec.Encode(shards) != nil {
+		return
+	}
+	// exactly d shards arrive: the present data shards and `missing` parity shards
+	var idx []int
+	for i := 0; i < d; i++ {
+		if !miss[i] {
+			idx = append(idx, i)
+		}
+	}
+	par := rng.intn(p)
+	for j := 0; j < missing; j++ {
+		idx = append(idx, d+(par+j)%p)
+	}
+	for i := len(idx) - 1; i > 0; i-- { // arrival order
+		k := rng.intn(i + 1)
+		idx[i], idx[k] = idx[k], idx[i]
+	}
+	note := fmt.Sprintf("recovery:%d/%d missing=%d sizefields=%s", d, p, missing, sizeChoice)
+	for _, i := range idx {
+		typ := uint16(typeData)
+		if i >= d {
+			typ = typeParity
+		}
+		x.forged(append(frameFecHdr(uint32(base+uint64(i)), typ), shards[i]...), addr, note)
+	}
+}
+
+func (x *frameC05) oneForgery(addr string, junk, noReset bool) {
+	rng := x.rng
+	ss := uint64(x.d + x.p)
+	paws := 0xffffffff / ss * ss
+	switch k := rng.intn(10); {
+	case k < 2: // random bytes of boundary lengths
+		n := rng.pick(0, 1, 5, 6, 7, 8, 11, 12, 13, 23, 24, 25, 31, 32, 33, 100, 1400, 1464)
+		b := rng.bytes(n)
+		if noReset && n >= 24 { // keep a live conversation alive: no foreign conv with sn 0 (boundary B3)
+			binary.LittleEndian.PutUint32(b[12:], 7)
+			if n >= 32 {
+				binary.LittleEndian.PutUint32(b[20:], 7)
+			}
+		}
+		x.forged(b, addr, "random")
+	case k < 5: // a recovery group
+		x.recoveryGroup(addr)
+	case k < 7: // structured FEC packet: seqid / type / size field at their boundaries
+		body := x.segment(noReset)
+		if rng.chance(30) {
+			body = rng.bytes(rng.pick(0, 1, 2, 3, 4, 23, 24, 60))
+		}
+		seqid := uint64(rng.pick(0, 1, 2)) + uint64(rng.intn(4))*ss
+		switch rng.intn(6) {
+		case 0:
+			seqid = paws - 1 - uint64(rng.intn(3))
+		case 1:
+			seqid = paws + uint64(rng.intn(3))
+		case 2:
+			seqid = 0xffffffff - uint64(rng.intn(2))
+		case 3:
+			x.group++
+			seqid = (x.group*ss + uint64(rng.intn(int(ss)))) % paws
+		}
+		var typ uint16
+		if seqid < paws && !junk { // consistent with the position in the cycle: no autotune
+			typ = typeData
+			if seqid%ss >= uint64(x.d) {
+				typ = typeParity
+			}
+		} else {
+			typ = uint16(rng.pick(typeData, typeParity, typeOOB, 0xf4, 0xf0, 0, 0x51, 0xf1f1))
+		}
+		sz := []int{0, 1, 2, 3, len(body) + 1, len(body) + 2, len(body) + 3, 0xffff}[rng.intn(8)]
+		pkt := frameFecHdr(uint32(seqid), typ)
+		s2 := make([]byte, 2)
+		binary.LittleEndian.PutUint16(s2, uint16(sz))
+		pkt = append(append(pkt, s2...), body...)
+		if rng.chance(15) {
+			pkt = pkt[:rng.intn(len(pkt)+1)]
+		}
+		x.forged(pkt, addr, "fec-structured")
+	case k < 8: // a raw KCP segment (no FEC header), one or two
+		b := x.segment(noReset)
+		if rng.chance(30) {
+			b = append(b, x.segment(noReset)...)
+		}
+		x.forged(b, addr, "kcp-segment")
+	default: // out-of-band packets of every length from the bare header up
+		n := rng.pick(0, 1, 2, 3, 4, 5, 8, 40, 1000)
+		conv := x.conv
+		if rng.chance(20) && !noReset {
+			conv = uint32(rng.u64())
+		}
+		pkt := frameFecHdr(uint32(rng.pick(0xffffffff, 0, 7)), typeOOB)
+		s2 := make([]byte, 2)
+		binary.LittleEndian.PutUint16(s2, uint16(rng.pick(n+6, 0, 1, 0xffff)))
+		c4 := make([]byte, 4)
+		binary.LittleEndian.PutUint32(c4, conv)
+		pkt = append(append(append(pkt, s2...), c4...), rng.bytes(n)...)
+		if rng.chance(25) {
+			pkt = pkt[:rng.pick(6, 7, 8, 9, 10, 11, 12, 13)]
+		}
+		x.forged(pkt, addr, "oob")
+	}
+}
+
+func frameRunC05(cfg frameCfg) *frameResult {
+	res := &frameResult{Cfg: cfg, Dist: map[string]int{}, Monitors: map[string]int{}}
+	rng := newRng(cfg.Seed)
+	x := &frameC05{cfg: cfg, res: res, rng: rng, ciph: frameCiphers()[cfg.Cipher], key: rng.bytes(32), conv: uint32(rng.u64())}
+	x.path = []string{"", "dialled", "listener-known", "listener-unknown"}[cfg.C05]
+	x.framer = x.ciph.mk(x.key)
+	x.hub = frameNewHub(newRng(rng.u64()), 0, 0)
+	fecOn := cfg.D > 0 && cfg.P > 0
+	x.d, x.p = cfg.D, cfg.P
+	if !fecOn {
+		x.d, x.p = 1, 1 // the decoder a session builds lazily
+	}
+	handler := func(b []byte) {
+		x.oobMu.Lock()
+		x.oobGot = append(x.oobGot, append([]byte(nil), b...))
+		x.oobMu.Unlock()
+	}
+	// the genuine peer: its datagrams are captured, never delivered by the hub
+	bep := x.hub.endpoint("Bep")
+	var err error
+	if cfg.C05 == 1 {
+		aep := x.hub.endpoint("Aep")
+		x.target, err = NewConn3(x.conv, frameAddr("Bx"), x.ciph.mk(x.key), cfg.D, cfg.P, aep)
+		if err != nil {
+			res.Err = err.Error()
+			return res
+		}
+		defer x.target.Close()
+		x.target.SetNoDelay(1, 10, 2, 1)
+		x.peer, err = NewConn3(x.conv, frameAddr("Ax"), x.ciph.mk(x.key), cfg.D, cfg.P, bep)
+	} else {
+		lep := x.hub.endpoint("Lep")
+		x.lis, err = ServeConn(x.ciph.mk(x.key), cfg.D, cfg.P, lep)
+		if err != nil {
+			res.Err = err.Error()
+			return res
+		}
+		defer x.lis.Close()
+		x.peer, err = NewConn3(x.conv, frameAddr("Lx"), x.ciph.mk(x.key), cfg.D, cfg.P, bep)
+	}
+	if err != nil {
+		res.Err = err.Error()
+		return res
+	}
+	defer x.peer.Close()
+	defer func() {
+		x.hub.mu.Lock()
+		x.hub.frozen = true
+		x.hub.mu.Unlock()
+		for _, ep := range x.hub.eps {
+			ep.Close()
+		}
+	}()
+	x.peer.SetNoDelay(1, 10, 2, 1)
+	header := fmt.Sprintf("X %d path=%d fec=%d d=%d p=%d conv=%d", cfg.ID, cfg.C05, frameB2I(fecOn), cfg.D, cfg.P, x.conv)
+	res.Dist["c05-path-"+x.path]++
+	res.Dist["cipher-"+x.ciph.name]++
+	res.Dist[fmt.Sprintf("fec-%d/%d", cfg.D, cfg.P)]++
+
+	if x.target != nil && fecOn {
+		x.target.SetOOBHandler(handler)
+		x.lines = append(x.lines, "H B")
+	}
+	// open the conversation with genuine traffic
+	stream := rng.bytes(20000)
+	off := 0
+	write := func(n int) {
+		if off+n <= len(stream) {
+			frameSafe(func() { x.peer.Write(stream[off : off+n]) })
+			off += n
+		}
+	}
+	write(100)
+	time.Sleep(15 * time.Millisecond)
+	x.pump()
+	if x.lis != nil {
+		if s := x.sessionAt("B"); s != nil {
+			s.SetNoDelay(1, 10, 2, 1)
+			if fecOn {
+				s.SetOOBHandler(handler)
+				x.lines = append(x.lines, "H B")
+			}
+			select {
+			case <-x.lis.chAccepts:
+			default:
+			}
+		} else {
+			res.Err = "the genuine peer's first datagrams did not create a session on the listener"
+			return res
+		}
+	}
+	steps := 220
+	if vThorough() {
+		steps = 900
+	}
+	rbuf := make([]byte, 2048)
+	for i := 0; i < steps; i++ {
+		junk := i > steps*6/10 // the last part also sends packets whose type contradicts their position (autotune)
+		addr := "B"
+		if cfg.C05 == 3 && rng.chance(70) {
+			addr = fmt.Sprintf("u%d", rng.intn(40))
+		}
+		last := i >= steps-12 // only at the very end: foreign conv with sn 0 from a live address (reset, boundary B3)
+		x.oneForgery(addr, junk, !last && addr == "B")
+		if rng.chance(35) {
+			write(1 + rng.intn(1500))
+		}
+		if rng.chance(30) {
+			time.Sleep(time.Duration(rng.intn(3)) * time.Millisecond)
+			x.pump()
+		}
+		if rng.chance(20) { // the application reads now and then: both a full and a draining receive queue occur
+			if s := x.sessionAt("B"); s != nil {
+				s.SetReadDeadline(time.Now().Add(time.Millisecond))
+				frameSafe(func() { s.Read(rbuf) })
+			}
+		}
+	}
+	x.pump()
+	res.Datagrams = x.feeds
+	res.Retrans = res.Dist["c05-recovered-shards"]
+	lg := frameDirLog{Header: header, Lines: x.lines}
+	if vThorough() && len(lg.Lines) > 400 {
+		lg.Lines = lg.Lines[:400]
+	}
+	res.Logs = append(res.Logs, lg)
+	res.Sample = fmt.Sprintf("%s path=%s: %d datagrams fed, %d shards recovered", cfg.String(), x.path, x.feeds, res.Dist["c05-recovered-shards"])
+	return res
+}
+
+// TestVerifC05Sess: authentic-but-malformed content behind the gate, for every cipher class
+// (nil included) x FEC {off (lazy 1+1 decoder), 2/1, 10/3} x {dialled session, listener with a
+// known address, listener with unknown addresses}; each cell in its own child process.
+func TestVerifC05Sess(t *testing.T) {
+	rng := newRng(vSeed())
+	rep := newReport("C05sess")
+	lg := newVlog(t, "C05sess.log")
+	defer lg.close()
+	var cfgs []frameCfg
+	rounds := 1
+	if vThorough() {
+		rounds = 3
+	}
+	for r := 0; r < rounds; r++ {
+		for ci := range frameCiphers() {
+			for _, f := range [][2]int{{0, 0}, {2, 1}, {10, 3}} {
+				for path := 1; path <= 3; path++ {
+					cfgs = append(cfgs, frameCfg{ID: len(cfgs), Cipher: ci, D: f[0], P: f[1], MtuKind: 2, Clients: 1, C05: path, Seed: rng.u64()})
+				}
+			}
+		}
+	}
+	results := make([]*frameResult, len(cfgs))
+	var mu sync.Mutex
+	t.Run("cells", func(t *testing.T) {
+		for i := range cfgs {
+			cfg := cfgs[i]
+			t.Run(fmt.Sprintf("x%d", cfg.ID), func(t *testing.T) {
+				t.Parallel()
+				r := frameSpawn(t, cfg)
+				mu.Lock()
+				results[cfg.ID] = r
+				mu.Unlock()
+			})
+		}
+	})
+	for _, r := range results {
+		if r == nil {
+			t.Errorf("cell did not run")
+			continue
+		}
+		rep.Cases++
+		rep.Steps += r.Datagrams
+		if r.Err != "" {
+			t.Errorf("cell %s: harness failure: %s", r.Cfg.String(), r.Err)
+		}
+		if r.Dist["c05-recovery-target-size-lt2"] > 0 && r.Dist["c05-recovered-shards"] > 0 {
+			rep.Nontrivial++
+		}
+		for k, v := range r.Dist {
+			rep.Distribution[k] += v
+		}
+		for k, v := range r.Monitors {
+			rep.Monitors[k] += v
+		}
+		for _, f := range r.Findings {
+			frameReport(rep, f)
+		}
+		if r.Sample != "" {
+			rep.sample(r.Sample)
+		}
+		for _, dl := range r.Logs {
+			lg.printf("%s\n", dl.Header)
+			for _, ln := range dl.Lines {
+				lg.printf("%s\n", ln)
+			}
+			lg.printf("E\n")
+		}
+	}
+	rep.Extra["cells"] = len(cfgs)
+	rep.Extra["nontrivial_rule"] = "a cell in which FEC recovery ran and at least one group was built to reconstruct a shard whose size field is 0 or 1"
+	rep.write(t, "C05sess.report.json")
 }
